@@ -22,6 +22,7 @@ structure TPass where
   tr : List ((Nat × Nat) × (PR × Nat × Nat))
   fmt : List (Nat × List Nat) := []       -- content ↦ alternatives `new` tries to rewrite the file to
   bail : Bool := false
+  avail : Bool := true                    -- `check_prerequisites()`
 
 def prOf (s : String) : PR :=
   if s = "OK" then .ok else if s = "INVALID" then .invalid else if s = "STOP" then .stop else if s = "ERROR" then .error else .crash
@@ -42,7 +43,7 @@ def parsePass (s : String) : TPass :=
     fmt := (items (get "fmt") ",").map fun x => match x.splitOn ":" with
       | a :: rest => (nat! a, rest.map (nat! ·))
       | _ => (0, []),
-    bail := get "bail" = "1" }
+    bail := get "bail" = "1", avail := get "avail" != "0" }
 
 def TPass.toI (t : TPass) : PassI Nat Nat where
   key := t.key
@@ -115,12 +116,16 @@ def handleDrv (line : String) : String :=
   let fuel := nat! (get "fuel")
   let mode := get "mode"
   let x0 : St Nat := { disk := disk, side := side0 }
+  -- `--start-with-pass`: the key of the named pass (`N`: option not given); a pass is runnable unless its entry says avail=0
+  let sw : Option Nat := optNat (get "sw")
+  let unavail : List Nat := (passes.filter (fun t => !t.avail)).map (·.key)
+  let avail : PassI Nat Nat → Bool := fun P => !unavail.contains P.key
   let r : LRes Nat :=
     if mode = "pass" then
       match (grp "main") with
-      | [P] => runPass cfg W dn P (orderBy size perm disk) fuel 0 x0
+      | [P] => (runPassG cfg W dn P (orderBy size perm disk) fuel 0 x0 sw).1
       | _ => .inl (x0, 0)
-    else reduce cfg W dn (orderBy size perm) fuel (grp "first") (grp "main") (grp "last") x0
+    else (reduceG cfg W dn (orderBy size perm) fuel avail (get "skipInitial" = "1") (grp "first") (grp "main") (grp "last") x0 sw).1
   let (outcome, x) := match r with
     | .inl (x, _) => ("ok", x)
     | .inr (e, x) => (showErr e, x)
